@@ -736,6 +736,21 @@ func runManager(t *testing.T, sc mscenario, ch *sched.Chooser) (res sched.Result
 				fail("illegal-transitions", "service %s: illegal transition sequence %v", probes[i].name, seq)
 			}
 		}
+		// "healthy exactly while all its services run": at quiescence (every notification delivered) the manager's own
+		// view must agree with the services' states — also after it has been healthy once
+		allRunning := len(svcs) > 0
+		for _, s := range svcs {
+			if s.State() != services.Running {
+				allRunning = false
+			}
+		}
+		if m.IsHealthy() != allRunning {
+			var sts []string
+			for _, s := range svcs {
+				sts = append(sts, s.State().String())
+			}
+			fail("healthy-stale", "at quiescence IsHealthy=%v but all services running=%v (states %v)", m.IsHealthy(), allRunning, sts)
+		}
 		nH, _, _ := count("ML Healthy")
 		nS, sSeq, _ := count("ML Stopped")
 		nF, _, fLast := count("ML Failure")
@@ -822,6 +837,8 @@ func TestC17Manager(t *testing.T) {
 	scs = append(scs, mscenario{name: "m2-watch", svcs: [][3]int{vecs[0], vecs[2]}, stop: true, watch: true},
 		mscenario{name: "m2-watch", svcs: [][3]int{vecs[1], vecs[2]}, stop: false, watch: true},
 		mscenario{name: "m2-nostop", svcs: [][3]int{vecs[2], vecs[3]}, stop: false},
+		mscenario{name: "m2-nostop", svcs: [][3]int{vecs[0], vecs[2]}, stop: false}, // one service fails while the other keeps running
+		mscenario{name: "m2-nostop", svcs: [][3]int{vecs[0], vecs[3]}, stop: false}, // one service stops by itself while the other keeps running
 		mscenario{name: "m1", svcs: [][3]int{vecs[0]}, stop: true})
 	if ev.Thorough() {
 		scs = append(scs, mscenario{name: "m3", svcs: [][3]int{vecs[0], vecs[2], vecs[0]}, stop: true},
